@@ -11,7 +11,8 @@ Open Scope Z_scope.
 (* the bounds-checked cursor: exactly the next [count] bytes or an error value, never a trap *)
 Theorem C16_read_exact : forall N c count, cur_ok N c ->
   postr (read_exact c count)
-        (fun '(b, c') => cur_ok N c' /\ zlen b = count /\ remaining c = b ++ remaining c').
+        (fun '(b, c') => cur_ok N c' /\ zlen b = count /\ Forall byte b /\
+                         remaining c = b ++ remaining c' /\ read_count c' = read_count c + count).
 Proof. exact read_exact_spec. Qed.
 Print Assumptions C16_read_exact.
 
